@@ -23,7 +23,8 @@ ENGINE = "undo"
 ENGINE_TEXT = "TLA+/TLC program enumeration + design invariants (MC_Undo), programs executed 5x on yrs UndoManager (ext/undo.rs), TLC trace validation (Trace_Undo)"
 TRACE = ("Trace_Undo", "Trace_Undo.cfg")
 REPEAT = 5
-XPAR = 10
+PAR = max(1, int(os.environ.get("VERIF_PAR", "10")))      # upper bound of parallel processes / TLC workers (shared machines)
+XPAR = min(10, PAR)
 
 # name -> (G config, kind, {tier: sample size or None = all})
 G_GROUPS = {
@@ -45,13 +46,36 @@ G_GROUPS = {
     "g2t": ("G_undo_g2t.cfg", "t", {"thorough": 10000}),
     "g2a": ("G_undo_g2a.cfg", "a", {"thorough": 10000}),
     "g2m": ("G_undo_g2m.cfg", "m", {"thorough": 10000}),
+    # XML scope (root fragment x): from the empty fragment (c*, f*, g*), with content of another origin prepared before the
+    # manager starts (p*: trimmed edit menu), deep histories of ONE attribute of one element (xk*)
+    "c3x": ("G_undo_c3x.cfg", "x", {"quick": 700, "thorough": None}),
+    "p2x": ("G_undo_p2x.cfg", "xp", {"quick": 600, "thorough": None}),
+    "f2x": ("G_undo_f2x.cfg", "x", {"quick": 600, "thorough": 15000}),
+    "xk4": ("G_undo_xk4.cfg", "x", {"quick": 300, "thorough": None}),
+    "pf2x": ("G_undo_pf2x.cfg", "xp", {"thorough": 15000}),
+    "p3x": ("G_undo_p3x.cfg", "xp", {"thorough": 20000}),
+    "c4x": ("G_undo_c4x.cfg", "x", {"thorough": 20000}),
+    "f3x": ("G_undo_f3x.cfg", "x", {"thorough": 12000}),
+    "g2x": ("G_undo_g2x.cfg", "x", {"thorough": 10000}),
+    "xk5": ("G_undo_xk5.cfg", "x", {"thorough": 15000}),
 }
+XML_GROUPS = [g for g in G_GROUPS if G_GROUPS[g][1] in ("x", "xp")]
 TIERS = {
-    "quick": {"gen": ["c3t", "c3a", "c3m", "k4", "f2t", "f2a", "f2m"], "deep": 2, "deep_n": 400},
-    "thorough": {"gen": list(G_GROUPS), "deep": 12, "deep_n": 1500},
+    "quick": {"gen": ["c3t", "c3a", "c3m", "k4", "f2t", "f2a", "f2m", "c3x", "p2x", "f2x", "xk4"], "deep": 2, "deep_n": 400,
+              "deepx": 1, "deepx_n": 250},
+    "thorough": {"gen": list(G_GROUPS), "deep": 12, "deep_n": 1500, "deepx": 6, "deepx_n": 1500},
 }
 
-OTHER = {"t": "m", "a": "t", "m": "a"}
+OTHER = {"t": "m", "a": "t", "m": "a", "x": "m"}
+
+# kind "xp": content created in the XML fragment by an UNTRACKED origin before the first tracked edit (MC_Undo constant Pre):
+# X[<e.. id=..>[T("c")], T("cc")]
+XML_PRE = [
+    {"a": "uop", "op": "ins", "r": 1, "p": ["x"], "i": 0, "n": 1, "k": "E", "key": "", "o": ""},
+    {"a": "uop", "op": "set", "r": 1, "p": ["x", "#e0"], "i": 0, "n": 1, "k": "u", "key": "id", "o": ""},
+    {"a": "uop", "op": "ins", "r": 1, "p": ["x", "#e0"], "i": 0, "n": 1, "k": "X", "key": "", "o": ""},
+    {"a": "uop", "op": "ins", "r": 1, "p": ["x"], "i": 1, "n": 2, "k": "X", "key": "", "o": ""},
+]
 
 
 def _h(*a):
@@ -60,7 +84,7 @@ def _h(*a):
 
 def _prologue(kind):
     """an edit of the TRACKED origin on a root outside the scope: must neither be captured nor ever be touched"""
-    o = OTHER[kind]
+    o = OTHER[kind[0]]
     if o == "m":
         return {"a": "uop", "op": "set", "r": 1, "p": ["m"], "key": "k9", "k": "u", "i": 0, "n": 1, "o": "U"}
     return {"a": "uop", "op": "ins", "r": 1, "p": [o], "i": 0, "n": 2 if o == "t" else 1, "k": "u", "key": "", "o": "U"}
@@ -78,19 +102,24 @@ def _closing(steps, idx):
 
 
 def _cfg(idx, scope):
-    return {"replicas": [{"id": 1, "gc": True}, {"id": 2, "gc": idx % 2 == 0}, {"id": 8, "gc": True}, {"id": 9, "gc": False}],
-            "followers": idx % 4 == 0, "offset": "utf16" if idx % 2 == 0 else "bytes", "ext": ["undo"],
-            "undo": {"r": 1, "scope": scope, "origin": "U", "timeout": 500}}
+    c = {"replicas": [{"id": 1, "gc": True}, {"id": 2, "gc": idx % 2 == 0}, {"id": 8, "gc": True}, {"id": 9, "gc": False}],
+         "followers": idx % 4 == 0, "offset": "utf16" if idx % 2 == 0 else "bytes", "ext": ["undo"],
+         "undo": {"r": 1, "scope": scope, "origin": "U", "timeout": 500}}
+    if "x" in scope:
+        c["xml"] = True           # every replica declares the XML fragment root
+    return c
 
 
 def make_schedules(hists, gname, kind):
     out = []
+    pre = [dict(s) for s in XML_PRE] if kind == "xp" else []
+    kind = kind[0]
     for idx, h in enumerate(hists):
-        steps = [_prologue(kind), {"a": "tick", "ms": 600}]
+        steps = pre + [_prologue(kind), {"a": "tick", "ms": 600}]
         for s in h:
             s = dict(s)
             if s["a"] == "dlv":
-                s["u"] = [x + 1 for x in s["u"]]      # the prologue took slot 1
+                s["u"] = [x + 1 + len(pre) for x in s["u"]]      # the prepared content and the prologue took the first slots
             steps.append(s)
         # every fourth behaviour tracks the prologue's root as well (two tracked types, the prologue becomes a step)
         scope = [kind, OTHER[kind]] if idx % 4 == 3 else [kind]
@@ -98,10 +127,35 @@ def make_schedules(hists, gname, kind):
     return out
 
 
-def deep_schedules(ix, n, seed):
-    """seeded long programs: addresses are resolved by X against the current state, so any word is executable"""
-    rnd = random.Random(_h(seed, "deep", ix))
-    scopes = [["t"], ["a"], ["m"], ["t", "m"], ["a", "m"], ["t", "a", "m"]]
+def _xml_edit(rnd, r, o):
+    """one random edit of the XML fragment: root children, an element (attributes, children), a text node (characters,
+    formatting), nodes nested in an element"""
+    i = rnd.randrange(4)
+    y = rnd.random()
+    if y < 0.30:
+        p = ["x"]
+    elif y < 0.55:
+        p = ["x", "#e%d" % rnd.randrange(2)]
+    elif y < 0.80:
+        p = ["x", "#t%d" % rnd.randrange(2)]
+    elif y < 0.90:
+        p = ["x", "#e%d" % rnd.randrange(2), "#t%d" % rnd.randrange(2)]
+    else:
+        p = ["x", "#e%d" % rnd.randrange(2), "#e%d" % rnd.randrange(2)]
+    if p[-1].startswith("#t"):
+        op = rnd.choice(["ins", "ins", "del", "fmt"])
+        return {"a": "uop", "op": op, "r": r, "p": p, "i": i, "n": rnd.choice([1, 1, 2]), "k": "u", "key": "b" if op == "fmt" else "", "o": o}
+    if len(p) == 1 or rnd.random() < 0.5:
+        op = rnd.choice(["ins", "ins", "del"])
+        return {"a": "uop", "op": op, "r": r, "p": p, "i": i, "n": rnd.choice([1, 1, 2]), "k": rnd.choice(["E", "X"]) if op == "ins" else "u", "key": "", "o": o}
+    return {"a": "uop", "op": rnd.choice(["set", "set", "rem"]), "r": r, "p": p, "i": 0, "n": 1, "k": "u", "key": rnd.choice(["id", "id", "cl"]), "o": o}
+
+
+def deep_schedules(ix, n, seed, xml=False):
+    """seeded long programs: addresses are resolved by X against the current state, so any word is executable.
+    xml: the XML fragment is (one of) the tracked root(s); a separate seeded family (the draws of the other one are unchanged)"""
+    rnd = random.Random(_h(seed, "deepx" if xml else "deep", ix))
+    scopes = [["x"], ["x"], ["x", "m"], ["t", "x"]] if xml else [["t"], ["a"], ["m"], ["t", "m"], ["a", "m"], ["t", "a", "m"]]
     out = []
     for b in range(n):
         scope = scopes[rnd.randrange(len(scopes))]
@@ -111,6 +165,8 @@ def deep_schedules(ix, n, seed):
 
         def edit(r, o):
             root = rnd.choice(scope) if rnd.random() < 0.85 else rnd.choice(["t", "a", "m"])
+            if root == "x":
+                return _xml_edit(rnd, r, o)
             i = rnd.randrange(4)
             if root == "t":
                 return {"a": "uop", "op": rnd.choice(["ins", "ins", "del"]), "r": r, "p": ["t"], "i": i, "n": rnd.choice([1, 1, 2]), "k": "u", "key": "", "o": o}
@@ -157,7 +213,7 @@ def deep_schedules(ix, n, seed):
                 steps.append({"a": "ustop", "r": 1})
         for s in inflight:
             steps.append({"a": "dlv", "r": 1, "u": [s]})
-        out.append({"bid": "deep%02d-%05d" % (ix, b), "cfg": _cfg(b, scope), "steps": _closing(steps, b)})
+        out.append({"bid": "deep%s%02d-%05d" % ("x" if xml else "", ix, b), "cfg": _cfg(b, scope), "steps": _closing(steps, b)})
     return out
 
 
@@ -182,7 +238,7 @@ def gen_hists(gname, tier, workdir):
             d = json.load(f)
         return d["hists"], d["stats"]
     cfg, kind, samples = G_GROUPS[gname]
-    g = vlib.generate("MC_Undo", cfg, os.path.join(workdir, gname, "g"))
+    g = vlib.generate("MC_Undo", cfg, os.path.join(workdir, gname, "g"), workers=min(10, PAR))
     hists = g["replay"]
     total = len(hists)
     hists.sort(key=lambda h: json.dumps(h, sort_keys=True))
@@ -310,7 +366,7 @@ def run_scheds(gname, scheds, tier, workdir, gstats=None):
     t0 = time.time()
     tfile, xs = run_x_parallel(scheds, wd)
     tv = time.time()
-    merged = vlib.validate(TRACE[0], TRACE[1], tfile, os.path.join(wd, "v"), parallel=10)
+    merged = vlib.validate(TRACE[0], TRACE[1], tfile, os.path.join(wd, "v"), parallel=min(10, PAR))
     by_bid = {s["bid"]: s for s in scheds}
     bad = {}
     for bid, pred, line in merged["viol"]:
@@ -357,6 +413,10 @@ def run_deep(ix, tier, workdir):
     return run_scheds("deep%02d" % ix, deep_schedules(ix, TIERS[tier]["deep_n"], vlib.seed()), tier, workdir)
 
 
+def run_deepx(ix, tier, workdir):
+    return run_scheds("deepx%02d" % ix, deep_schedules(ix, TIERS[tier]["deepx_n"], vlib.seed(), xml=True), tier, workdir)
+
+
 # ------------------------------------------------------------------------------------------------
 # plugin interface
 
@@ -385,6 +445,10 @@ def check(prop, tier):
             ev.sample(s)
     for i in range(plan["deep"]):
         r = run_deep(i, tier, wd)
+        results.append(r)
+        ev.add_v(r["group"], r["merged"], r["nontrivial"], r["v_wall"])
+    for i in range(plan["deepx"]):
+        r = run_deepx(i, tier, wd)
         results.append(r)
         ev.add_v(r["group"], r["merged"], r["nontrivial"], r["v_wall"])
     ev.cov["rule"] = ("behaviours = programs enumerated by TLC from MC_Undo (per tracked root kind text / array with nested map / "
